@@ -41,9 +41,10 @@ def load_known_findings():
 
 
 def write_replay(pid, name, payload):
-    os.makedirs(os.path.join(ROOT, "replays"), exist_ok=True)
+    rdir = os.path.join(os.environ["VERIF_EVIDENCE_DIR"], "replays") if os.environ.get("VERIF_EVIDENCE_DIR") else os.path.join(ROOT, "replays")
+    os.makedirs(rdir, exist_ok=True)
     h = hashlib.sha256(json.dumps(payload, sort_keys=True, default=str).encode()).hexdigest()[:10]
-    path = os.path.join(ROOT, "replays", f"{pid}-{h}.json")
+    path = os.path.join(rdir, f"{pid}-{h}.json")
     payload = dict(payload, property=pid, obligation=name, rerun=f"./check {pid} --replay {path}")
     with open(path, "w") as f:
         json.dump(payload, f, indent=1, default=str)
